@@ -4,7 +4,8 @@ From HTA.lib Require Import Base Cells Intervals Sweep.
 From HTA.model Require Import C04_Model C07_Model.
 From HTA.gen Require Import KernelRules_gen.
 From HTA.proof Require Import KernelRulesTie C04_Proofs C07_Proofs.
-From HTA.proof Require Import Scale C04_Scale C07_Scale.
+From HTA.gen Require Import OverlapRules_gen.
+From HTA.proof Require Import Scale C04_Scale C07_Scale C07_RulesTie.
 
 (* For EVERY ts-sorted permutation A', B' of the communication / computation intervals and EVERY
    time-sorted permutation R' of the +-1 / +-2 status rows (ties inside an instant in any order):
@@ -69,3 +70,12 @@ Theorem C07_resolution_independent : forall k l, 0 < k ->
   model_C07 (scale_evs k l) = (k * fst (model_C07 l), k * snd (model_C07 l)).
 Proof. exact C07_scale. Qed.
 Print Assumptions C07_resolution_independent.
+
+(* the weights of the boundary rows (+-1 communication, +-2 computation) and the running value that counts as overlap (their sum) are
+   read from get_comm_comp_overlap_value on every run (strict statement-by-statement reading) and are the model's *)
+Theorem C07_rules_follow_source : forall (A B A' : list itv) (R' : list row),
+  status_rows A B = (rows_of comm_weight_gen A ++ rows_of comp_weight_gen B)%list /\
+  overlap A' R' = (sweep (Z.eqb overlap_level_gen) 0 R', total (merge_sorted A')) /\
+  overlap_level_gen = comm_weight_gen + comp_weight_gen.
+Proof. exact overlap_rules_are_generated. Qed.
+Print Assumptions C07_rules_follow_source.
